@@ -197,6 +197,7 @@ pub fn run_fixture(sc: &Scenario, keep: bool) -> Outcome {
         first_byte: [Gate::default(), Gate::default()],
         writer_done: [Gate::default(), Gate::default()],
         consumed: [Gate::default(), Gate::default()],
+        lo_side: None,
         fin_delivered: Default::default(),
         round: Default::default(),
         sleepers: Default::default(),
